@@ -74,7 +74,7 @@ PROPS = {
     "C08": {
         "level_text": "Lean theorems C08_paused_no_update_delete, C08_frozen_nothing, C08_resume, C08_sync, C08_flags, C08_paused_not_promoted, C08_validate_overrides_pause, C08_pause_sources, C08_state, C08_canary_state for every counter state / annotation map / replica-set status, about the models of ManageDeployment, selectCurrentReplicaSet, nonCanaryState and manageStatus; canary-side clauses (no creation while paused or failed, resume on unpause incl. the zero-pod case) are proved in EdsProps/C06. Tied by the manage_deployment, manage_canary and select_current streams over every annotation value (absent, true, false, junk) and rollout state.",
         "level_note": TB + "Modelled by hand: ManageDeployment, manageCanaryStatus, selectCurrentReplicaSet, manageStatus. Toggling histories across reconciles are covered by the scenario streams when registered.",
-        "streams": [("manage_deployment", 1500, 30000), ("manage_canary", 2500, 50000), ("select_current", 2000, 40000), ("ers_reconcile", 1500, 30000)],
+        "streams": [("manage_deployment", 1500, 30000), ("manage_canary", 2500, 50000), ("select_current", 2000, 40000), ("ers_reconcile", 3000, 30000)],
         "extra_theorems": [("EdsProofs.FactsBridge", "facts_keys"), ("EdsProofs.FactsBridge", "facts_states"), ("EdsProps.C06", "C08_")],
         "trusted_base": ["hand-written models of ManageDeployment / manageCanaryStatus / selectCurrentReplicaSet / manageStatus tied by three function streams"],
         "assumptions": COMMON_ASSUME,
@@ -168,7 +168,7 @@ PROPS = {
     "C14": {
         "level_text": "C14_quiescent_counts (EdsProps/C14b): at the quiescent state of the active replica set (cooperative entries, no empty node, no outdated pod -- the state C02_converges_coop reaches) the reported desired = current = ready = available = number of targeted nodes, ignored = 0, and the sync creates and deletes nothing. Lean theorems: C14_status_function (the status computed by the EDS reconcile satisfies the declarative Spec.C14 clauses: current/ready/available are sums over its replica sets, desired/upToDate from the active and, during a canary, the canary replica set, state/reason/canary block and the Canary-Paused/Canary-Failed conditions agree with the canary facts and annotations, in every branch), C14_eds_writes_status / C14_written_status_ok / C14_no_write_means_current, C14_ers_order and C14_ers_order_canary (0 <= available <= ready <= current <= desired for the active and canary role, for every node/pod layout), C14_unknown_zero_desired, C14_conditions_update / C14_transition_time; the real Reconcile functions run against the model (eds_reconcile, ers_reconcile, manage_deployment, manage_canary streams) and the same Spec.C14 clauses are evaluated on the statuses they write.",
         "level_note": TB + "Modelled by hand: both Reconcile functions. The quiescent clause (counters equal the numbers of pods that exist / are Ready / run the live template) is checked by the scenario stream at quiescence and inherits C02's partial label.",
-        "streams": [("eds_reconcile", 2000, 40000), ("ers_reconcile", 1500, 30000), ("manage_deployment", 800, 16000), ("manage_canary", 800, 16000)],
+        "streams": [("eds_reconcile", 3500, 40000), ("ers_reconcile", 1500, 30000), ("manage_deployment", 800, 16000), ("manage_canary", 800, 16000)],
         "extra_theorems": [("EdsProofs.FactsBridge", "facts_keys"), ("EdsProofs.FactsBridge", "facts_states"), ("EdsProps.C14b", "C14_")],
         "trusted_base": ["hand-written L2 models of both Reconcile functions tied by the eds_reconcile / ers_reconcile streams"],
         "partial": ["C14_quiescent: scenario-level evidence only"],
@@ -427,3 +427,12 @@ L3S = "EdsProps.L3Settings"
 PROPS["C18"]["extra_theorems"] = PROPS["C18"].get("extra_theorems", []) + [(L3S, "re:^(C18_winner|C18_valid_iff_newest|L3S_)")]
 PROPS["C18"]["level_text"] += " HISTORY (EdsProps/L3Settings over EdsModel/ClusterSettings: reconcileSetting / applySetting / updateSetting / deleteSetting ops on top of the cluster machine): L3S_settled_at_most_one_valid (in every world reached by any run, in a namespace whose settings have all been reconciled since the last edit / node change, two valid settings matching one node are equal), L3S_winner / C18_winner (the valid one is the newest, ties by greater name), L3S_losers_error, L3S_valid_was_valid (provenance of every stored 'valid'), L3S_node_gets_at_most_one (the replica-set sync attaches at most one setting per node in EVERY world, and it is valid, of the namespace, references the ExtendedDaemonSet and matches), L3S_transient_overlap (before settling two valid settings CAN match one node: proved run; the settled hypothesis cannot be dropped), frame and lifting of the L3 invariants."
 PROPS["C18"]["trusted_base"] = PROPS["C18"].get("trusted_base", []) + ["EdsModel/ClusterSettings.lean: the effect of apply / update / delete of a setting and of the setting Reconcile's status write on the store is modelled by hand (status subresource: a spec update keeps the stored status)"]
+
+# EdsProps/C11c (seventh round): RECOVERY AFTER FAULTS AS A THEOREM — faulty cooperative rounds (any subset of a sync's
+# planned pod writes applied, status write applied or not, process stopped, answer lost) preserve the cooperative-store
+# invariant and never increase the measure; fault-free rounds afterwards converge to the fixpoint of the fault-free run
+for _p, _pat in (("C11", "re:^C11c_"), ("C02", "re:^C11c_(recovers_store|same_as_fault_free|cluster_recovers|recovers_after_)"),
+                 ("C07", "re:^C11c_recovers_after_rollback")):
+    PROPS[_p]["extra_theorems"] = PROPS[_p].get("extra_theorems", []) + [("EdsProps.C11c", _pat)]
+PROPS["C11"]["partial"] = ["recovery is a theorem at store level and at cluster level after promotion / rollback (EdsProps/C11c) under the cooperative assumptions of C02c (instantaneous kubelet, no settings on the listed nodes, strategy parameters >= 1, rounds at least reconcileFrequency apart, no node churn); outside them (canary in progress during the faults, settings, node churn) it is checked on the corpus x fault index x kind"]
+PROPS["C11"]["level_text"] += " RECOVERY (EdsProps/C11c): C11c_faulty_round_keeps_coop (a round in which ANY subset of the sync's creations / deletions is applied and the status write is applied or not preserves every component of the cooperative store; a dropped status write never gates the next round), C11c_measure_exact / _monotone, C11c_recovers_store (any finite sequence of faulty rounds followed by k >= measure fault-free rounds is converged), C11c_same_fixpoint / C11c_same_as_fault_free (same (node, template) assignment and counters as the fault-free run, via C11_fixpoint_unique), C11c_cluster_recovers, C11c_recovers_after_promotion / _after_rollback (cluster machine, incl. the dropped spec write); the literal 'same pod list' is false (timestamps) and kept visible with its counterexample."
